@@ -643,7 +643,16 @@ def r6(ck, F, rid="C08.R6"):
         ck.bad(rid, key, where(be.raw["sp"]), "Vec::enabled is %s; unrecognised combination" % e, fn=be.path)
     # hint: max over children with None propagating; empty -> OFF
     hp = PathEval(bh, max_paths=4000).run()
-    has_q = any(t["callee"].get("method") == "branch" for bb, t in bh.calls())
+    # a child without a hint makes the whole Vec hint-less: `s.max_level_hint()?`, or the same early return spelled out
+    has_q = False
+    for pth in hp:
+        if pth.end != "return" or pth.ret is None:
+            continue
+        none_child = any((show(c[0]).startswith("discr(branch(max_level_hint(") and c[1] == 1) or (show(c[0]).startswith("discr(max_level_hint(") and c[1] == 0)
+                         or (show(c[0]).startswith("is_none(max_level_hint(") and c[1] != 0) for c in pth.conds)
+        r = show(pth.ret)
+        if none_child and (r.startswith("Option::None") or r.startswith("from_residual(")):
+            has_q = True
     has_max = any(t["callee"].get("path", "").endswith("cmp::max") for bb, t in bh.calls())
     off0 = any(s["k"] == "assign" and "use" in s["rv"] and (s["rv"]["use"].get("const") or {}).get("def", "").endswith("LevelFilter::OFF") for i, j, s in bh.stmts())
     if has_q and has_max and off0:
